@@ -102,6 +102,22 @@ def _check(job):
         rep["observed"] = text
         for msg in table.compare(tab, [os.path.basename(p) for p in paths], header, rows, 6, "threshold")[:3]:
             divs.append(("table:csv", "%s: %s" % (" ".join(argv[2:]), msg), rep))
+    # -x obs / -x fcst: scores conditional on the observed / forecast value lying in the events of -b / -r
+    for ct in obj.get("cond", []):
+        for kind in ("csv", "text"):
+            argv = list(paths) + ["-m", obj["metric"], "-x", ct["field"], "-type", kind, "-r", ",".join(str(t) for t in ct["r"]), "-b", ct["bt"]]
+            if climp:
+                argv += ["-c" if obj["climType"] == "subtract" else "-C", climp]
+            rep = {"kind": "table", "argv": argv, "files": [open(p).read() for p in paths], "expected": ct["table"], "type": kind, "axis": ct["field"]}
+            status, text = run_verif(argv)
+            n += 1
+            if status != "ok":
+                divs.append((status.split(" ")[0] if status.startswith("exception") else "table:" + status, "%s -> %s" % (" ".join(argv[2:]), status), rep))
+                continue
+            header, rows = table.parse(text, kind)
+            rep["observed"] = text
+            for msg in table.compare(ct["table"], [os.path.basename(p) for p in paths], header, rows, 6 if kind == "csv" else 4, ct["field"])[:3]:
+                divs.append(("table:conditional-on-%s" % ct["field"], "%s: %s" % (" ".join(argv[2:]), msg), rep))
     for mt in obj.get("multi", []):
         argv = list(paths) + ["-m", obj["metric"], "-x", obj["axis"], "-type", "csv", "-r", ",".join(str(t) for t in mt["r"]), "-b", mt["bt"]]
         if climp:
